@@ -1,4 +1,4 @@
-//@serves C01 C02 C04 C05 C10 C12 C11
+//@serves C01 C02 C04 C05 C10 C12 C11 C03 C14
 //@tier A
 //@include prelude/head.rs
 verus! {
